@@ -67,6 +67,39 @@ Theorem C17_fill_blank_when_too_few : forall m mn ts ys,
 Proof. exact fill_blank_when_too_few. Qed.
 Print Assumptions C17_fill_blank_when_too_few.
 
+(* per-method characterisation.  Primitives: forward filling returns the last given ordinate at or before the position,
+   backward filling the first given ordinate at or after it (NaN when there is none) ... *)
+Theorem C17_ffill_bfill_char : forall ys i, (i < length ys)%nat ->
+  nth i (ffill ys) XNaN = last (filter xnotnull (firstn (S i) ys)) XNaN /\
+  nth i (bfill ys) XNaN = hd XNaN (filter xnotnull (skipn i ys)).
+Proof. exact (fun ys i H => conj (ffill_char ys i H) (bfill_char ys i H)). Qed.
+Print Assumptions C17_ffill_bfill_char.
+(* ... the methods are the documented compositions: step = forward fill then 0; forward = forward then backward fill;
+   backward = backward then forward fill; linear = given ordinate or interpolation through the known points, clipped *)
+Theorem C17_fill_methods_compose : forall mn ts ys, (mn <= nancount ys)%nat ->
+  fill_line FStep mn ts ys = map (fun v => xfillna v X0) (ffill ys) /\
+  fill_line FForward mn ts ys = bfill (ffill ys) /\
+  fill_line FBackward mn ts ys = ffill (bfill ys) /\
+  fill_line FLinear mn ts ys = fill_linear ts ys.
+Proof. exact fill_methods_compose. Qed.
+Print Assumptions C17_fill_methods_compose.
+Theorem C17_fill_linear_char : forall ts ys i t, length ts = length ys -> nth_error ts i = Some t ->
+  nth i (fill_linear ts ys) XNaN = clip01 (match nth i ys XNaN with XNaN => interp_known (known ts ys) t | v => v end).
+Proof. exact fill_linear_char. Qed.
+Print Assumptions C17_fill_linear_char.
+(* ... where interpolation through known points with increasing abscissae (which `known` of an increasing grid has) is:
+   the segment through the two neighbours, the first segment extended to the left, the last one to the right *)
+Theorem C17_interp_known_char :
+  (forall ts ys, Cdf.increasing ts = true -> xs_increasing (known ts ys)) /\
+  (forall k1 xa ya xb yb k2 x, xs_increasing (k1 ++ (xa, ya) :: (xb, yb) :: k2) -> xa <= x <= xb ->
+     interp_known (k1 ++ (xa, ya) :: (xb, yb) :: k2) x =x= XFin (ya + (yb - ya) * (x - xa) / (xb - xa))) /\
+  (forall x0 y0 x1 y1 k2 x, x <= x1 ->
+     interp_known ((x0, y0) :: (x1, y1) :: k2) x = XFin (y0 + (y1 - y0) * (x - x0) / (x1 - x0))) /\
+  (forall k1 xa ya xb yb x, xs_increasing (k1 ++ [(xa, ya); (xb, yb)]) -> xb <= x ->
+     interp_known (k1 ++ [(xa, ya); (xb, yb)]) x =x= XFin (ya + (yb - ya) * (x - xa) / (xb - xa))).
+Proof. exact (conj known_increasing (conj interp_known_between (conj interp_known_left interp_known_right))). Qed.
+Print Assumptions C17_interp_known_char.
+
 (* ---- decreasing_cdfs ---- *)
 (* flagged exactly when the total decrease (sum of the positive parts of l_i - l_{i+1}) exceeds the tolerance *)
 Theorem C17_decreasing_iff_total_decrease_exceeds_tol : forall tol l,
